@@ -188,9 +188,9 @@ def theorem_scope(res):
     """the largest sub-environment of the corpus to which C01_derive_layer applies: definitions inside the decidable
     fragment (plain_defb) whose references stay inside it, one definition per TypeScript name; returns
     (corpus definitions, definitions in that sub-environment, plain_envb of it)"""
-    body = ("From TsRs Require Import Corr.%s Proofs.Sem_derive_proofs.\n" % res["envname"] + CR.HEADER + """
+    body = ("From TsRs Require Import Corr.%s Spec.TsFree Proofs.Sem_derive_proofs.\n" % res["envname"] + CR.HEADER + """
 Definition shrink (R' : env) : env :=
-  filter (fun p => plain_defb R' (snd p) && is_ok (decl_of is_upper is_alnum is_numeric R' fuel (snd p))) R'.
+  filter (fun p => plain_defb R' (snd p) && src_def (snd p) && is_ok (decl_of is_upper is_alnum is_numeric R' fuel (snd p))) R'.
 Fixpoint dedup (seen : list str) (R' : env) : env :=
   match R' with
   | [] => []
@@ -220,7 +220,7 @@ def de_theorem_instances(res, items):
     cases = coq_list(["(%s, %s)" % (C.coq_ty(qs[qi]), coq_json(parse_json(text))) for qi, text in items], sep=";\n ")
     body = ("From TsRs Require Import Corr.%s Spec.Serde Spec.SerdeDe Proofs.Sem_derive_proofs Proofs.De_proofs.\n" % res["envname"] + CR.HEADER + SEM_HEADER + """
 Definition shrink2 (R' : env) : env :=
-  filter (fun p => def_okb is_upper R' (snd p) && is_ok (decl_of is_upper is_alnum is_numeric R' fuel (snd p))) R'.
+  filter (fun p => def_okb is_upper R' (snd p) && src_def (snd p) && is_ok (decl_of is_upper is_alnum is_numeric R' fuel (snd p))) R'.
 Fixpoint dedup (seen : list str) (R' : env) : env :=
   match R' with
   | [] => []
